@@ -490,7 +490,7 @@ def ep_random(eid, rng, abi):
     b = e.alloc(n + 8, 1)
     e.fill(b, n + 8, 0x5A)
     e.call(abi, "random_get", b, n)
-    e.raw(b, n + 8, "random_get", abi, "buffer", kind="random", n=n)
+    e.raw(b, n + 8, "random_get", abi, "buffer", kind="random", length=n)
     return e
 
 
@@ -530,8 +530,8 @@ MAKERS = [("open_fdstat", ep_open_fdstat, 5), ("hopen_fdstat", ep_hopen_fdstat, 
 def scenario(rng, n_random):
     """-> (args, env, [episodes])"""
     words = ["prog", "-v", "x", "--long-option=value", "", "a b", "été", "0123456789" * 7]
-    args = [words[0]] + [rng.choice(words[1:]) for _ in range(rng.randrange(0, 6))]
-    env = ["K%d=%s" % (i, rng.choice(["", "1", "some value", "x" * rng.randrange(1, 90)])) for i in range(rng.randrange(0, 5))]
+    args = [words[0]] + [rng.choice(words[1:]) for _ in range(rng.randrange(1, 6))]
+    env = ["K%d=%s" % (i, rng.choice(["", "1", "some value", "x" * rng.randrange(1, 90)])) for i in range(rng.randrange(1, 5))]
     eps = []
     # systematic part: every maker in both ABIs
     for abi in ABIS:
@@ -635,9 +635,11 @@ def canonical(ep, out):
                 # precision: the host may round down to its resolution; 10 ms of slack
                 res.append((lab, f["fn"], f["abi"], f["field"], "between the host's readings before and after", not palindromic(iv, 8)))
             else:
-                res.append((lab, f["fn"], f["abi"], f["field"], "%s (host before %s after %s)" % (v, lo, hi), True))
+                # not comparable as a number between two runs: keep only its magnitude (a byte-reversed clock reading has
+                # all 8 bytes significant)
+                res.append((lab, f["fn"], f["abi"], f["field"], "outside the host's readings; %d significant bytes" % ((iv.bit_length() + 7) // 8), True))
         elif kind == "random":
-            n = f["n"]
+            n = f["length"]
             b = bytes.fromhex(v)
             body, guard = b[:n], b[n:]
             txt = "guard=%s" % guard.hex()
